@@ -75,6 +75,16 @@ CLAIMED = {
          "revert. That __runtime_mem_id == __encoding_mem_id is itself right for every nesting is not decided.",
          "Trusted: rules/lib/sw.py tokenizer; syn; spec/abi_sizes.txt; the two mem-id intrinsics.",
          "DESIGN.md §3 C10"),
+ "C11": ("E-TAB+E-SW", "other", "AGREE rules over a three-party protocol (caller desugaring, std contract_call, generated __entry dispatcher): format! templates rendered with captures kept symbolic and tokenised as Sway, capture provenance traced through the generator's let-bindings (syn), positional-argument agreement along the call path down to the CALL opcode",
+         "Decides the agreement a contract call needs to reach the named method with its arguments: the selector is u64 big-endian length then the name bytes "
+         "of the resolved method and the entry reads length then bytes from the first call parameter; each dispatch arm is filed under and guarded by its own "
+         "name length, compares that many bytes at this method's offset in the names blob (offset taken before the name is appended), branches on that "
+         "comparison, calls __contract_entry_<the compared name> (the symbol methods are registered under), decodes the tuple of declared parameter types in "
+         "order and passes args.0.. in order, and always returns; the fallback follows the arms and a missing fallback reverts; duplicate names are rejected; "
+         "argument roles agree from the desugared call through std contract_call, the call-frame tuple, the intrinsic, the IR instruction and the CALL "
+         "operands. Does not decide the encoding of argument values (C09/C10) or the VM's CALL.",
+         "Trusted: syn; rules/lib/sw.py tokenizer; FuelVM call-frame layout and meq semantics.",
+         "DESIGN.md §9.2 C11"),
  "C12": ("E-MIR+E-TAB+E-SW", "other", "who-may-call and argument-provenance rules on the storage key derivation (MIR), CFG order of hasher inputs, constant/separator SPEC (syn), Sway std-lib domain constant check, padding-arithmetic anti-pattern rule",
          "Decides: the emitted storage slots and the generated storage accesses take a field's key from the same function with the same inputs; "
          "the implicit key is sha256(domain byte 0 ++ `storage[::ns]*.field`) with the domain fed first and an explicit `in` key used verbatim; "
@@ -175,7 +185,6 @@ CLAIMED = {
 
 NOT_APPLICABLE = {
  "C02": "O0≡O1 is a differential over executions; no static clause beyond the per-pass/per-table clauses claimed under C03/C07.",
- "C11": "Contract dispatch is emitted as Sway source text by format! templates; its correctness is a run-time fact about generated text, with no resolved program to analyse.",
  "C14": "Exactness of the usefulness algorithm over pattern matrices is algorithmic correctness over run-time values; the only structural content (Pattern variant coverage) is already enforced by rustc.",
  "C18": "Idempotence f(f(x))=f(x) depends on width heuristics and comment placement; no necessary structural clause exists.",
  "C17": "Panic-freedom of the whole compile pipeline: the cone of compile_to_asm has thousands of unwrap/expect/index/unreachable sites whose unreachability rests on type-checker invariants not visible in the shape of the code; the local-guard discharge that decides C16/C21/C23 leaves them open, and a reviewed-site table of that size would be a frozen list, not a decision.",
